@@ -48,9 +48,9 @@ func Engine() *worker.Engine {
 			case "C08/thorough":
 				return scale(3000000)
 			case "C20/quick":
-				return scale(20000)
+				return scale(150000)
 			case "C20/thorough":
-				return scale(1000000)
+				return scale(5000000)
 			}
 			return 1000
 		},
